@@ -380,7 +380,7 @@ def faults(rng, case):
                     node = {'k': 'namespace', 'name': [part], 'elems': [node]}
                 src.append(node)
         if len(info['comp_ns']) >= 1:
-            variant('ambiguous-port-type', mut_src=ambiguous, expect='any')
+            variant('ambiguous-port-type', mut_src=ambiguous, expect='lib')
     mc = case['cfg']['multiclient']
     if mc is not None:
         variant('mc-unknown-port', lambda cfg: cfg['multiclient'].__setitem__('port', 'zz_nope'))
